@@ -11,6 +11,7 @@
  *   k defer <h> <o> [nomem]   h := ctx->defer(); nomem: the allocation of the detached handle fails
  *   k addref <o> | k unref <o>    metatype handles
  *   k release <h>             detached handle answers with the default reply and goes away
+ *   k sendfail 0|1            the send callback refuses / accepts from now on
  *   k end                     release every detached handle, then every metatype handle
  */
 #include "drv_util.h"
@@ -53,12 +54,13 @@ static int nctx;
 static MPT_INTERFACE(reply_context_detached) *det[NH];
 static int det_of[NH];
 static int sends;
+static int send_fail;        /* the send callback refuses */
 
 static int send_cb(void *ptr, const MPT_STRUCT(reply_data) *rd, const MPT_STRUCT(message) *msg)
 {
 	(void) ptr; (void) rd; (void) msg;
 	++sends;
-	return 0;
+	return send_fail ? MPT_ERROR(BadOperation) : 0;
 }
 static void clear_events(void)
 {
@@ -99,6 +101,7 @@ int main(void)
 		if (!strcmp(op, "begin") && drv_nw == 2) {
 			finish_script();
 			clear_events();
+			send_fail = 0;
 			nctx = 0;
 			printf("R ok | C - | I -\n");
 		}
@@ -147,6 +150,10 @@ int main(void)
 			if (o < 0 || !alive[o] || !metas[o]) { puts("bad-op"); continue; }
 			metas[o]--;
 			ctx[o]->_vptr->unref(ctx[o]);
+			result("ok");
+		}
+		else if (!strcmp(op, "sendfail") && drv_nw == 3 && (!strcmp(drv_w[2], "0") || !strcmp(drv_w[2], "1"))) {
+			send_fail = drv_w[2][0] == '1';
 			result("ok");
 		}
 		else if (!strcmp(op, "release") && drv_nw == 3) {
